@@ -321,6 +321,12 @@ def run_impl(ctx, case):
             arg = ref.copy()
         arg.atoms_positions = arg_positions(case)
         arg_before = arg.atoms_positions.copy()
+        if case.get("seed", 0) % 3 == 1:
+            # the public attribute is assigned again (same value) between two calls: the projections were fixed at
+            # construction, nothing may change (seed C03-7: a setter that re-projects against whatever frames the
+            # map holds at that moment)
+            ctx.count("scale_factor-reassigned-between-calls")
+            emap.scale_factor = case["s"]
         res = emap(arg)
         out = res.atoms_positions.copy()
     eq = emap.equivalences   # {ref index: [target indices]}
@@ -389,6 +395,8 @@ def cyl(p, o, axis):
 
 def collinear_anchor(pos, nb, a):
     """does calcule_base take the collinear fallback for anchor a (as the code tests it)?"""
+    if len(nb[a]) < 2:      # not an anchor at all (an implementation that assigns one anyway is judged by the oracle)
+        return False, np.array([1.0, 0.0, 0.0])
     n1, n2 = sorted(nb[a])[:2]
     d = np.array(pos[n2]) - np.array(pos[a])
     e1 = d / np.linalg.norm(d)
